@@ -51,9 +51,22 @@ CASES += [
 
 CASES += [
     {"name": "reorganisation energy looked up with the running number of the state (the repaired defect)", "kind": "mutant", "rule": "C14-G", "edits": [
-        ("quantarhei/builders/aggregate_base.py", "                        self.sbi.get_reorganization_energy(\n                                                self.elinds[start+i]-1)",
-         "                        self.sbi.get_reorganization_energy(i)", 1)]},
+        ("quantarhei/builders/aggregate_base.py", "                            lam = self.sbi.get_reorganization_energy(\n                                                self.elinds[start+i]-1)",
+         "                            lam = self.sbi.get_reorganization_energy(i)", 1)]},
     {"name": "site of the state looked up first", "kind": "twin", "edits": [
-        ("quantarhei/builders/aggregate_base.py", "                        re[i] = \\\n                        self.sbi.get_reorganization_energy(\n                                                self.elinds[start+i]-1)",
-         "                        site = self.elinds[start+i]-1\n                        re[i] = self.sbi.get_reorganization_energy(self.elinds[start+i]-1)", 1)]},
+        ("quantarhei/builders/aggregate_base.py", "                            lam = self.sbi.get_reorganization_energy(\n                                                self.elinds[start+i]-1)",
+         "                            site = self.elinds[start+i]-1\n                            lam = self.sbi.get_reorganization_energy(self.elinds[start+i]-1)", 1)]},
+]
+
+AB14 = "quantarhei/builders/aggregate_base.py"
+CASES += [
+    {"name": "aggregate temperature read from the correlation functions directly (the repaired defect)", "kind": "mutant", "rule": "C14-H", "edits": [
+        (AB14, "        if not self.sbi.has_temperature():\n            return 0.0\n        \n        return self.sbi.get_temperature()", "        return self.sbi.CC.get_temperature()", 1)]},
+    {"name": "reorganisation energies asked of a missing bath (the repaired defect)", "kind": "mutant", "rule": "C14-H", "edits": [
+        (AB14, "                        lam = None\n                        if self.sbi is not None:\n                            lam = self.sbi.get_reorganization_energy(\n                                                self.elinds[start+i]-1)\n                        if lam is not None:\n                            re[i] = lam\n",
+               "                        re[i] = self.sbi.get_reorganization_energy(\n                                                self.elinds[start+i]-1)\n", 1)]},
+    {"name": "None from a rate-based bath stored as an energy", "kind": "mutant", "rule": "C14-H", "edits": [
+        (AB14, "                        if lam is not None:\n                            re[i] = lam\n", "                        re[i] = lam\n", 1)]},
+    {"name": "temperature guard written as positive branch", "kind": "twin", "edits": [
+        (AB14, "        if not self.sbi.has_temperature():\n            return 0.0\n        \n        return self.sbi.get_temperature()", "        if self.sbi.has_temperature():\n            return self.sbi.get_temperature()\n        return 0.0", 1)]},
 ]
